@@ -19,3 +19,45 @@ Theorem scan_total : forall jsc_len enum_len data,
   end.
 Proof. exact scan_total_lemma. Qed.
 Print Assumptions scan_total.
+
+(* (b) the catalog stage, on the model (model/Catalog.v, model/Core.v; proofs/CatalogTotalProofs.v).
+   ok_err r  =  r is COk _ or CErr _  (never CPanic, never CFuel).
+   admissible f  =  the conclusion of C06.resolve_admissible: every root is root-admissible and every
+   parent -> child edge is allowed by the regenerated context table;  macro_free_roots f  =  no root
+   is a MACRO directive (collect_macro takes them all; no directive admits a MACRO child). *)
+From Coq Require Import String.
+From JV.gen Require Import DirectiveTables.
+From JV.model Require Import Core Catalog.
+From JV.spec Require Import ContextSpec MacroSpec.
+From JV.proofs Require Import MacroProofs CatalogTotalProofs.
+
+(* every CPanic of Catalog.v - "nil Parent", "nil Info", the GPanic of PathParameters - is unreachable:
+   for every oracle, body text and set of banned directives *)
+Theorem build_never_panics : forall pp bt banned post,
+  admissible post -> macro_free_roots post -> ok_err (build pp bt banned post).
+Proof. exact build_never_panics_lemma. Qed.
+Print Assumptions build_never_panics.
+
+(* the hypothesis about MACRO roots is needed on the model (no stage produces such a forest) *)
+Theorem build_panics_with_a_macro_root :
+  exists post, admissible post /\ build (fun _ => None) (fun _ => []) [] post = CPanic "nil Info"%string.
+Proof. exact macro_root_panics_example. Qed.
+Print Assumptions build_panics_with_a_macro_root.
+
+(* macro expansion preserves admissibility and leaves no MACRO *)
+Theorem expand_preserves_admissibility : forall ts f,
+  admissible ts -> expand ts = COk f -> admissible f /\ macro_free_roots f.
+Proof. exact expand_preserves_admissibility_lemma. Qed.
+Print Assumptions expand_preserves_admissibility.
+
+Theorem expanded_forest_never_panics : forall pp bt banned f post,
+  admissible f -> expand f = COk post -> ok_err (build pp bt banned post).
+Proof. exact expanded_forest_never_panics_lemma. Qed.
+Print Assumptions expanded_forest_never_panics.
+
+(* context resolution >>= macro expansion >>= catalog construction, for EVERY item sequence
+   (pipeline pp bt banned l = resolve_all l >>=c fun f => expand f >>=c build pp bt banned):
+   with C06.resolve_never_panics_or_runs_out and C07.expand_total *)
+Theorem pipeline_total : forall pp bt banned l, ok_err (pipeline pp bt banned l).
+Proof. exact pipeline_total_lemma. Qed.
+Print Assumptions pipeline_total.
